@@ -15,6 +15,7 @@ import sys
 import traceback
 from typing import Any, Dict, List, Optional
 
+from .abseval import Undecided
 from .loader import AnalysisError, Program, SourceSet
 from .report import EXIT_ANALYSIS_ERROR, Report, finish
 
@@ -31,7 +32,11 @@ def analyse(prop_id: str, ss: SourceSet, tier: str) -> Report:
     rep.decided = list(getattr(mod, 'DECIDED', []))
     rep.not_decided = list(getattr(mod, 'NOT_DECIDED', []))
     prog = Program(ss)
-    mod.run(prog, rep, tier == 'thorough')
+    try:
+        mod.run(prog, rep, tier == 'thorough')
+    except Undecided as exc:
+        # a construct outside the evaluator's vocabulary reached a rule unguarded: loud, never a silent pass
+        raise AnalysisError(f'abstract evaluator: {exc}') from exc
     return rep
 
 
